@@ -7,6 +7,7 @@ import (
 	"fmt"
 	"math/rand"
 	"regexp"
+	"sort"
 	"strconv"
 	"strings"
 )
@@ -1179,5 +1180,1164 @@ func init() {
 				}
 			}
 		},
+	})
+}
+
+// ---------------------------------------------------------------- self-modifying operands (c05rl*)
+//
+// Operators whose RIGHT operand has a side effect on the very variable / member /
+// element that IS the left operand.  The evaluator hands operands around as
+// cells: a plain variable, an existing member, a parenthesised one, the result of
+// an assignment and of a match arm ARE the variable's cell (aliases); everything
+// else is a temporary.  && and || decide on the truthiness the left operand has
+// when it is evaluated (before the right operand runs); comparison and arithmetic
+// operators read both cells after both operands have been evaluated (so
+// `x + (x = 5)` is 10).  The generator carries its own interpreter of that cell
+// semantics for a small expression language and computes the expected output of
+// every program; the same interpreter runs two deviant semantics (logic operators
+// reading the left cell again after the right operand ran; binary operators
+// capturing the left value before the right operand runs) and the generator
+// prefers programs on which a deviant semantics would print something else.
+
+type c05rlCont struct {
+	arr   bool
+	elems []*c05rlCell
+	obj   map[string]*c05rlCell
+}
+
+type c05rlVal struct {
+	k byte // N S B Z U A O
+	n float64
+	s string
+	b bool
+	c *c05rlCont
+}
+
+type c05rlCell struct {
+	v   c05rlVal
+	par *c05rlCont // missing member read: where an assignment creates it
+	key string
+	idx int
+}
+
+type c05rlExpr struct {
+	op   string
+	txt  string
+	lit  c05rlVal
+	kids []*c05rlExpr
+	keys []string
+	idx  int
+}
+
+type c05rlFn struct {
+	name      string
+	body, ret *c05rlExpr
+}
+
+type c05rlStmt struct {
+	kind string // show if while print
+	e    *c05rlExpr
+}
+
+type c05rlProg struct {
+	doc   string // when set: the statements run in a rule over this one-record document and o is the record ($)
+	fns   []*c05rlFn
+	init  []*c05rlExpr
+	stmts []c05rlStmt
+}
+
+var c05rlErrRT = fmt.Errorf("runtime error")
+var c05rlErrGiveUp = fmt.Errorf("outside the generator's interpreter")
+
+func c05rlN(n float64) c05rlVal { return c05rlVal{k: 'N', n: n} }
+func c05rlB(b bool) c05rlVal    { return c05rlVal{k: 'B', b: b} }
+
+func (v c05rlVal) truthy() bool {
+	switch v.k {
+	case 'B':
+		return v.b
+	case 'N':
+		return v.n != 0
+	case 'S':
+		return len(v.s) > 0
+	case 'A', 'O':
+		return true
+	}
+	return false
+}
+
+func (v c05rlVal) num() float64 {
+	switch v.k {
+	case 'N':
+		return v.n
+	case 'B':
+		if v.b {
+			return 1
+		}
+	case 'S':
+		return c05Coerce(v.s)
+	}
+	return 0
+}
+
+func (v c05rlVal) str() string {
+	switch v.k {
+	case 'S':
+		return v.s
+	case 'N':
+		return c05Fmt(v.n)
+	}
+	return ""
+}
+
+// pretty: what print shows for the value (value.go prettyStringInteral; no cycles here)
+func (v c05rlVal) pretty(quote bool) string {
+	switch v.k {
+	case 'S':
+		if quote {
+			return "\"" + v.s + "\""
+		}
+		return v.s
+	case 'N':
+		return c05Fmt(v.n)
+	case 'B':
+		return strconv.FormatBool(v.b)
+	case 'Z':
+		return "null"
+	case 'A':
+		var ps []string
+		for _, c := range v.c.elems {
+			ps = append(ps, c.v.pretty(true))
+		}
+		return "[" + strings.Join(ps, ", ") + "]"
+	case 'O':
+		var ks []string
+		for k := range v.c.obj {
+			ks = append(ks, k)
+		}
+		sort.Strings(ks)
+		var ps []string
+		for _, k := range ks {
+			ps = append(ps, "\""+k+"\": "+v.c.obj[k].v.pretty(true))
+		}
+		return "{" + strings.Join(ps, ", ") + "}"
+	}
+	return "<unknown>"
+}
+
+const c05rlState = "print x, y, u, a, o"
+
+func c05rlCompare(a, b c05rlVal) (int, error) {
+	switch {
+	case a.k == 'Z' && b.k == 'Z':
+		return 0, nil
+	case a.k == 'Z':
+		return -1, nil
+	case b.k == 'Z':
+		return 1, nil
+	}
+	if a.k == 'A' || a.k == 'O' || b.k == 'A' || b.k == 'O' {
+		return 0, c05rlErrRT
+	}
+	if a.k == 'S' && b.k == 'S' {
+		return strings.Compare(a.s, b.s), nil
+	}
+	return c05Cmp(a.num(), b.num()), nil
+}
+
+func c05rlCompute(op string, a, b c05rlVal) (c05rlVal, error) {
+	switch op {
+	case "==", "!=", "<", "<=", ">", ">=":
+		if a.k == 'U' || b.k == 'U' {
+			return c05rlB(op == "<" || op == ">"), nil
+		}
+		c, err := c05rlCompare(a, b)
+		if err != nil {
+			return c05rlVal{}, err
+		}
+		switch op {
+		case "==":
+			return c05rlB(c == 0), nil
+		case "!=":
+			return c05rlB(c != 0), nil
+		case "<":
+			return c05rlB(c < 0), nil
+		case "<=":
+			return c05rlB(c <= 0), nil
+		case ">":
+			return c05rlB(c > 0), nil
+		default:
+			return c05rlB(c >= 0), nil
+		}
+	case "+":
+		if a.k == 'S' || b.k == 'S' {
+			return c05rlVal{k: 'S', s: a.str() + b.str()}, nil
+		}
+		return c05rlN(a.num() + b.num()), nil
+	case "-":
+		return c05rlN(a.num() - b.num()), nil
+	case "*":
+		return c05rlN(a.num() * b.num()), nil
+	case "/":
+		if b.num() == 0 {
+			return c05rlVal{}, c05rlErrRT
+		}
+		return c05rlN(a.num() / b.num()), nil
+	case "~", "!~":
+		if b.k != 'S' {
+			return c05rlVal{}, c05rlErrRT
+		}
+		re, err := regexp.Compile(b.s)
+		if err != nil {
+			return c05rlVal{}, c05rlErrRT
+		}
+		return c05rlB(re.MatchString(a.str()) == (op == "~")), nil
+	case "%":
+		l, r := a.num(), b.num()
+		if l != l || r != r || l > 1e15 || l < -1e15 || r > 1e15 || r < -1e15 {
+			return c05rlVal{}, c05rlErrGiveUp
+		}
+		if int(r) == 0 {
+			return c05rlVal{}, c05rlErrRT
+		}
+		return c05rlN(float64(int(l) % int(r))), nil
+	}
+	return c05rlVal{}, c05rlErrGiveUp
+}
+
+type c05rlSim struct {
+	vars  map[string]*c05rlCell
+	bind  []string
+	bindC []*c05rlCell
+	fns   map[string]*c05rlFn
+	mode  int // 0 reference; 1 logic operators read the left cell again; 2 binary operators capture the left value early
+	steps int
+}
+
+func (s *c05rlSim) assign(l *c05rlCell, v c05rlVal) *c05rlCell {
+	t := l
+	if l.par != nil && l.v.k == 'Z' {
+		p := l.par
+		if p.arr {
+			for len(p.elems) <= l.idx {
+				p.elems = append(p.elems, &c05rlCell{v: c05rlVal{k: 'Z'}})
+			}
+			t = p.elems[l.idx]
+		} else if c, ok := p.obj[l.key]; ok {
+			t = c
+		} else {
+			t = &c05rlCell{}
+			p.obj[l.key] = t
+		}
+	}
+	t.v = v
+	return t
+}
+
+func (s *c05rlSim) eval(e *c05rlExpr) (*c05rlCell, error) {
+	s.steps++
+	if s.steps > 5000 {
+		return nil, c05rlErrGiveUp
+	}
+	switch e.op {
+	case "lit":
+		return &c05rlCell{v: e.lit}, nil
+	case "arr", "obj":
+		c := &c05rlCont{arr: e.op == "arr", obj: map[string]*c05rlCell{}}
+		for i, k := range e.kids {
+			kc, err := s.eval(k)
+			if err != nil {
+				return nil, err
+			}
+			if c.arr {
+				c.elems = append(c.elems, &c05rlCell{v: kc.v})
+			} else {
+				c.obj[e.keys[i]] = &c05rlCell{v: kc.v}
+			}
+		}
+		if c.arr {
+			return &c05rlCell{v: c05rlVal{k: 'A', c: c}}, nil
+		}
+		return &c05rlCell{v: c05rlVal{k: 'O', c: c}}, nil
+	case "var":
+		for i := len(s.bind) - 1; i >= 0; i-- {
+			if s.bind[i] == e.txt {
+				return s.bindC[i], nil
+			}
+		}
+		c, ok := s.vars[e.txt]
+		if !ok {
+			if len(s.bind) > 0 {
+				return nil, c05rlErrGiveUp // would be created in the match frame
+			}
+			c = &c05rlCell{v: c05rlVal{k: 'U'}}
+			s.vars[e.txt] = c
+		}
+		return c, nil
+	case "idx":
+		c, err := s.eval(e.kids[0])
+		if err != nil {
+			return nil, err
+		}
+		if c.v.k != 'A' {
+			return nil, c05rlErrGiveUp
+		}
+		if e.idx < len(c.v.c.elems) {
+			return c.v.c.elems[e.idx], nil
+		}
+		return &c05rlCell{v: c05rlVal{k: 'Z'}, par: c.v.c, idx: e.idx}, nil
+	case "idxdyn": // the index operator is a binary operator too: the container is read once the index has been evaluated
+		l, err := s.eval(e.kids[0])
+		if err != nil {
+			return nil, err
+		}
+		early := l.v
+		r, err := s.eval(e.kids[1])
+		if err != nil {
+			return nil, err
+		}
+		lv := l.v
+		if s.mode == 2 {
+			lv = early
+		}
+		if lv.k != 'A' || r.v.k != 'N' || r.v.n != float64(int(r.v.n)) {
+			return nil, c05rlErrGiveUp
+		}
+		i := int(r.v.n)
+		if i < 0 {
+			i += len(lv.c.elems)
+			if i < 0 {
+				return nil, c05rlErrRT
+			}
+		}
+		if i < len(lv.c.elems) {
+			return lv.c.elems[i], nil
+		}
+		return &c05rlCell{v: c05rlVal{k: 'Z'}, par: lv.c, idx: i}, nil
+	case "mem":
+		c, err := s.eval(e.kids[0])
+		if err != nil {
+			return nil, err
+		}
+		if c.v.k != 'O' {
+			return nil, c05rlErrGiveUp
+		}
+		if m, ok := c.v.c.obj[e.txt]; ok {
+			return m, nil
+		}
+		return &c05rlCell{v: c05rlVal{k: 'Z'}, par: c.v.c, key: e.txt}, nil
+	case "asg":
+		l, err := s.eval(e.kids[0])
+		if err != nil {
+			return nil, err
+		}
+		r, err := s.eval(e.kids[1])
+		if err != nil {
+			return nil, err
+		}
+		return s.assign(l, r.v), nil
+	case "opasg": // a += b is a = a + b
+		l, err := s.eval(e.kids[0])
+		if err != nil {
+			return nil, err
+		}
+		r, err := s.binary(e.txt, e.kids[0], e.kids[1])
+		if err != nil {
+			return nil, err
+		}
+		return s.assign(l, r.v), nil
+	case "pre", "post":
+		c, err := s.eval(e.kids[0])
+		if err != nil {
+			return nil, err
+		}
+		v := c.v.num()
+		nv := v + 1
+		if e.txt == "--" {
+			nv = v - 1
+		}
+		t := s.assign(c, c05rlN(nv))
+		if e.op == "post" {
+			return &c05rlCell{v: c05rlN(v)}, nil
+		}
+		return &c05rlCell{v: t.v}, nil
+	case "not":
+		c, err := s.eval(e.kids[0])
+		if err != nil {
+			return nil, err
+		}
+		return &c05rlCell{v: c05rlB(!c.v.truthy())}, nil
+	case "neg":
+		c, err := s.eval(e.kids[0])
+		if err != nil {
+			return nil, err
+		}
+		return &c05rlCell{v: c05rlN(-c.v.num())}, nil
+	case "bin":
+		return s.binary(e.txt, e.kids[0], e.kids[1])
+	case "call":
+		f := s.fns[e.txt]
+		// match bindings live in the caller's frames: still visible (dynamic scoping)
+		if _, err := s.eval(f.body); err != nil {
+			return nil, err
+		}
+		r, err := s.eval(f.ret)
+		if err != nil {
+			return nil, err
+		}
+		return &c05rlCell{v: r.v}, nil
+	case "meth":
+		c, err := s.eval(e.kids[0])
+		if err != nil {
+			return nil, err
+		}
+		if c.v.k != 'A' && !(c.v.k == 'O' && e.txt == "length") {
+			return nil, c05rlErrGiveUp
+		}
+		ct := c.v.c
+		switch e.txt {
+		case "length":
+			if c.v.k == 'O' {
+				return &c05rlCell{v: c05rlN(float64(len(ct.obj)))}, nil
+			}
+			return &c05rlCell{v: c05rlN(float64(len(ct.elems)))}, nil
+		case "pop":
+			if len(ct.elems) == 0 {
+				return &c05rlCell{v: c05rlVal{k: 'Z'}}, nil
+			}
+			x := ct.elems[len(ct.elems)-1]
+			ct.elems = ct.elems[:len(ct.elems)-1]
+			return x, nil
+		case "popfirst":
+			if len(ct.elems) == 0 {
+				return &c05rlCell{v: c05rlVal{k: 'Z'}}, nil
+			}
+			x := ct.elems[0]
+			ct.elems = append([]*c05rlCell{}, ct.elems[1:]...)
+			return x, nil
+		case "push":
+			a, err := s.eval(e.kids[1])
+			if err != nil {
+				return nil, err
+			}
+			ct.elems = append(ct.elems, &c05rlCell{v: a.v})
+			return &c05rlCell{v: c.v}, nil
+		}
+		return nil, c05rlErrGiveUp
+	case "par", "matchw":
+		return s.eval(e.kids[0])
+	case "matchlit":
+		c, err := s.eval(e.kids[0])
+		if err != nil {
+			return nil, err
+		}
+		arm := e.kids[2]
+		if c.v.k != 'U' {
+			k, err := c05rlCompare(c.v, e.lit)
+			if err != nil {
+				return nil, err
+			}
+			if k == 0 {
+				arm = e.kids[1]
+			}
+		}
+		s.bind, s.bindC = append(s.bind, "_"), append(s.bindC, c)
+		r, err := s.eval(arm)
+		s.bind, s.bindC = s.bind[:len(s.bind)-1], s.bindC[:len(s.bindC)-1]
+		return r, err
+	case "matchbind":
+		c, err := s.eval(e.kids[0])
+		if err != nil {
+			return nil, err
+		}
+		s.bind, s.bindC = append(s.bind, e.txt), append(s.bindC, c)
+		r, err := s.eval(e.kids[1])
+		s.bind, s.bindC = s.bind[:len(s.bind)-1], s.bindC[:len(s.bindC)-1]
+		return r, err
+	}
+	return nil, c05rlErrGiveUp
+}
+
+func (s *c05rlSim) binary(op string, le, re *c05rlExpr) (*c05rlCell, error) {
+	l, err := s.eval(le)
+	if err != nil {
+		return nil, err
+	}
+	switch op {
+	case "&&", "||":
+		lt := l.v.truthy()
+		if lt != (op == "&&") {
+			return &c05rlCell{v: c05rlB(lt)}, nil
+		}
+		r, err := s.eval(re)
+		if err != nil {
+			return nil, err
+		}
+		if s.mode == 1 {
+			lt = l.v.truthy()
+			if op == "&&" {
+				return &c05rlCell{v: c05rlB(lt && r.v.truthy())}, nil
+			}
+			return &c05rlCell{v: c05rlB(lt || r.v.truthy())}, nil
+		}
+		return &c05rlCell{v: c05rlB(r.v.truthy())}, nil
+	}
+	early := l.v
+	r, err := s.eval(re)
+	if err != nil {
+		return nil, err
+	}
+	lv := l.v
+	if s.mode == 2 {
+		lv = early
+	}
+	v, err := c05rlCompute(op, lv, r.v)
+	if err != nil {
+		return nil, err
+	}
+	return &c05rlCell{v: v}, nil
+}
+
+// run interprets the program: the output, "ok" / "runtime", and whether the interpreter gave up
+func (p *c05rlProg) run(mode int) (string, string, bool) {
+	s := &c05rlSim{vars: map[string]*c05rlCell{}, fns: map[string]*c05rlFn{}, mode: mode}
+	for _, f := range p.fns {
+		s.fns[f.name] = f
+	}
+	var out strings.Builder
+	fail := func(err error) (string, string, bool) {
+		if err == c05rlErrRT {
+			return out.String(), "runtime", false
+		}
+		return out.String(), "", true
+	}
+	for _, e := range p.init {
+		if _, err := s.eval(e); err != nil {
+			return fail(err)
+		}
+	}
+	for _, st := range p.stmts {
+		switch st.kind {
+		case "show", "print":
+			c, err := s.eval(st.e)
+			if err != nil {
+				return fail(err)
+			}
+			if st.kind == "show" {
+				out.WriteString(fmt.Sprintf("%s %v %v %v %v\n", c.v.pretty(false), c.v.k == 'S', c.v.k == 'N', c.v.k == 'B', c.v.k == 'Z'))
+			} else {
+				switch c.v.k {
+				case 'B':
+					out.WriteString(strconv.FormatBool(c.v.b) + "\n")
+				case 'N', 'S':
+					out.WriteString(c.v.str() + "\n")
+				default:
+					return out.String(), "", true
+				}
+			}
+		case "if":
+			c, err := s.eval(st.e)
+			if err != nil {
+				return fail(err)
+			}
+			if c.v.truthy() {
+				out.WriteString("T\n")
+			} else {
+				out.WriteString("F\n")
+			}
+		case "while":
+			n := 0
+			for {
+				c, err := s.eval(st.e)
+				if err != nil {
+					return fail(err)
+				}
+				if !c.v.truthy() {
+					break
+				}
+				n++
+				if n >= 3 {
+					break
+				}
+			}
+			out.WriteString(strconv.Itoa(n) + "\n")
+		}
+		var parts []string
+		for _, n := range []string{"x", "y", "u", "a", "o"} {
+			c, ok := s.vars[n]
+			if !ok {
+				return out.String(), "", true
+			}
+			parts = append(parts, c.v.pretty(false))
+		}
+		out.WriteString(strings.Join(parts, " ") + "\n")
+	}
+	return out.String(), "ok", false
+}
+
+func (e *c05rlExpr) operand() string {
+	switch e.op {
+	case "bin", "asg", "opasg", "matchw", "matchlit", "matchbind", "neg":
+		return "(" + e.text() + ")"
+	}
+	return e.text()
+}
+
+func (e *c05rlExpr) text() string {
+	switch e.op {
+	case "lit", "var":
+		return e.txt
+	case "arr":
+		var ps []string
+		for _, k := range e.kids {
+			ps = append(ps, k.text())
+		}
+		return "[" + strings.Join(ps, ", ") + "]"
+	case "obj":
+		var ps []string
+		for i, k := range e.kids {
+			ps = append(ps, e.keys[i]+": "+k.text())
+		}
+		return "{" + strings.Join(ps, ", ") + "}"
+	case "idx":
+		return e.kids[0].text() + "[" + strconv.Itoa(e.idx) + "]"
+	case "idxdyn":
+		return e.kids[0].text() + "[" + e.kids[1].text() + "]"
+	case "mem":
+		if e.idx == 1 {
+			return e.kids[0].text() + "['" + e.txt + "']"
+		}
+		return e.kids[0].text() + "." + e.txt
+	case "asg":
+		return e.kids[0].text() + " = " + e.kids[1].operand()
+	case "opasg":
+		return e.kids[0].text() + " " + e.txt + "= " + e.kids[1].operand()
+	case "pre":
+		return e.txt + e.kids[0].text()
+	case "post":
+		return e.kids[0].text() + e.txt
+	case "not":
+		return "!(" + e.kids[0].text() + ")"
+	case "neg":
+		return "-(" + e.kids[0].text() + ")"
+	case "bin":
+		l := e.kids[0].operand()
+		if e.idx == 1 { // a left operand on the same precedence level written without parentheses (left-associative)
+			l = e.kids[0].text()
+		}
+		return l + " " + e.txt + " " + e.kids[1].operand()
+	case "call":
+		return e.txt + "()"
+	case "meth":
+		if len(e.kids) > 1 {
+			return e.kids[0].text() + "." + e.txt + "(" + e.kids[1].text() + ")"
+		}
+		return e.kids[0].text() + "." + e.txt + "()"
+	case "par":
+		return "(" + e.kids[0].text() + ")"
+	case "matchw":
+		return "match (1) { _ => " + e.kids[0].text() + " }"
+	case "matchlit":
+		return "match (" + e.kids[0].text() + ") { " + e.txt + " => " + e.kids[1].text() + ", _ => " + e.kids[2].text() + " }"
+	case "matchbind":
+		return "match (" + e.kids[0].text() + ") { " + e.txt + " => " + e.kids[1].text() + " }"
+	}
+	return "?"
+}
+
+func (p *c05rlProg) text() string {
+	var sb strings.Builder
+	for _, f := range p.fns {
+		sb.WriteString("function " + f.name + "() { " + f.body.text() + "\n return " + f.ret.text() + " }\n")
+	}
+	if p.doc != "" {
+		sb.WriteString("{\n")
+	} else {
+		sb.WriteString("BEGIN {\n")
+	}
+	for _, e := range p.init {
+		if p.doc != "" && e.op == "asg" && e.kids[0].txt == "o" {
+			sb.WriteString(" o = $\n")
+			continue
+		}
+		sb.WriteString(" " + e.text() + "\n")
+	}
+	for _, st := range p.stmts {
+		switch st.kind {
+		case "show":
+			sb.WriteString(" r = " + st.e.operand() + "\n " + c05Show + "\n")
+		case "print":
+			sb.WriteString(" print " + st.e.text() + "\n")
+		case "if":
+			sb.WriteString(" if (" + st.e.text() + ") print 'T'; else print 'F'\n")
+		case "while":
+			sb.WriteString(" n = 0\n while (" + st.e.text() + ") { n++; if (n >= 3) break }\n print n\n")
+		}
+		sb.WriteString(" " + c05rlState + "\n")
+	}
+	sb.WriteString("}\n")
+	return sb.String()
+}
+
+type c05rlGen struct {
+	r      *rand.Rand
+	p      *c05rlProg
+	wLogic float64
+	nBind  int
+}
+
+func c05rlLit(txt string, v c05rlVal) *c05rlExpr { return &c05rlExpr{op: "lit", txt: txt, lit: v} }
+
+func (g *c05rlGen) scalar() *c05rlExpr {
+	switch g.r.Intn(16) {
+	case 0, 1, 2:
+		return c05rlLit("0", c05rlN(0))
+	case 3, 4, 5:
+		return c05rlLit("1", c05rlN(1))
+	case 6:
+		return c05rlLit("2", c05rlN(2))
+	case 7:
+		return &c05rlExpr{op: "neg", kids: []*c05rlExpr{c05rlLit("1", c05rlN(1))}}
+	case 8, 9:
+		return c05rlLit("''", c05rlVal{k: 'S'})
+	case 10:
+		return c05rlLit("'a'", c05rlVal{k: 'S', s: "a"})
+	case 11:
+		d := pick(g.r, []string{"0", "1"})
+		return c05rlLit("'"+d+"'", c05rlVal{k: 'S', s: d})
+	case 12:
+		return c05rlLit("true", c05rlB(true))
+	case 13:
+		return c05rlLit("false", c05rlB(false))
+	default:
+		return c05rlLit("null", c05rlVal{k: 'Z'})
+	}
+}
+
+// value: a literal of any kind (scalars, empty and non-empty containers)
+func (g *c05rlGen) value() *c05rlExpr {
+	switch g.r.Intn(12) {
+	case 0:
+		return &c05rlExpr{op: "arr"}
+	case 1:
+		return &c05rlExpr{op: "arr", kids: []*c05rlExpr{g.scalar()}}
+	case 2:
+		return &c05rlExpr{op: "obj"}
+	case 3:
+		return &c05rlExpr{op: "obj", kids: []*c05rlExpr{g.scalar()}, keys: []string{"k"}}
+	}
+	return g.scalar()
+}
+
+func (g *c05rlGen) loc() *c05rlExpr {
+	v := func(n string) *c05rlExpr { return &c05rlExpr{op: "var", txt: n} }
+	switch g.r.Intn(14) {
+	case 0, 1, 2, 3:
+		return v("x")
+	case 4, 5:
+		return v("y")
+	case 6:
+		return v("u")
+	case 7, 8:
+		return &c05rlExpr{op: "idx", kids: []*c05rlExpr{v("a")}, idx: 0}
+	case 9:
+		return &c05rlExpr{op: "idx", kids: []*c05rlExpr{v("a")}, idx: 1}
+	case 10, 11:
+		return &c05rlExpr{op: "mem", txt: "n", kids: []*c05rlExpr{v("o")}}
+	case 12:
+		return &c05rlExpr{op: "mem", txt: pick(g.r, []string{"k", "s"}), idx: g.r.Intn(2), kids: []*c05rlExpr{v("o")}}
+	default:
+		return &c05rlExpr{op: "mem", txt: "z", kids: []*c05rlExpr{v("o")}}
+	}
+}
+
+// effect: an expression with a side effect on the location
+func (g *c05rlGen) effect(loc *c05rlExpr, inFn bool) *c05rlExpr {
+	k := []*c05rlExpr{loc}
+	switch g.r.Intn(14) {
+	case 0, 1:
+		return &c05rlExpr{op: "pre", txt: pick(g.r, []string{"--", "--", "++"}), kids: k}
+	case 2, 3:
+		return &c05rlExpr{op: "post", txt: pick(g.r, []string{"--", "--", "++"}), kids: k}
+	case 4, 5, 6:
+		return &c05rlExpr{op: "asg", kids: []*c05rlExpr{loc, g.value()}}
+	case 7:
+		switch g.r.Intn(4) {
+		case 0:
+			return &c05rlExpr{op: "opasg", txt: "-", kids: []*c05rlExpr{loc, c05rlLit("1", c05rlN(1))}}
+		case 1:
+			return &c05rlExpr{op: "opasg", txt: "+", kids: []*c05rlExpr{loc, c05rlLit("1", c05rlN(1))}}
+		case 2:
+			return &c05rlExpr{op: "opasg", txt: "*", kids: []*c05rlExpr{loc, c05rlLit("0", c05rlN(0))}}
+		default:
+			return &c05rlExpr{op: "opasg", txt: "+", kids: []*c05rlExpr{loc, c05rlLit("'a'", c05rlVal{k: 'S', s: "a"})}}
+		}
+	case 8:
+		return &c05rlExpr{op: "asg", kids: []*c05rlExpr{loc, {op: "var", txt: pick(g.r, []string{"x", "y", "u"})}}}
+	case 9, 10, 11:
+		if inFn {
+			return &c05rlExpr{op: "asg", kids: []*c05rlExpr{loc, g.value()}}
+		}
+		f := &c05rlFn{name: fmt.Sprintf("f%d", len(g.p.fns)), body: g.effect(loc, true), ret: g.scalar()}
+		if chance(g.r, 0.2) {
+			f.ret = loc
+		}
+		g.p.fns = append(g.p.fns, f)
+		return &c05rlExpr{op: "call", txt: f.name}
+	default:
+		a := &c05rlExpr{op: "var", txt: "a"}
+		switch {
+		case loc.op == "idx":
+			switch g.r.Intn(4) {
+			case 0:
+				return &c05rlExpr{op: "meth", txt: "pop", kids: []*c05rlExpr{a}}
+			case 1:
+				return &c05rlExpr{op: "meth", txt: "popfirst", kids: []*c05rlExpr{a}}
+			case 2:
+				return &c05rlExpr{op: "meth", txt: "push", kids: []*c05rlExpr{a, g.scalar()}}
+			default:
+				return &c05rlExpr{op: "asg", kids: []*c05rlExpr{a, {op: "arr", kids: []*c05rlExpr{g.scalar(), g.scalar()}}}}
+			}
+		case loc.op == "mem":
+			return &c05rlExpr{op: "asg", kids: []*c05rlExpr{{op: "var", txt: "o"}, {op: "obj", kids: []*c05rlExpr{g.scalar()}, keys: []string{loc.txt}}}}
+		}
+		return &c05rlExpr{op: "asg", kids: []*c05rlExpr{loc, g.value()}}
+	}
+}
+
+var c05rlOtherOps = []string{"+", "-", "*", "/", "%", "==", "!=", "<", "<=", ">", ">=", "+", "-", "==", "<", ">", "~", "!~"}
+
+func (g *c05rlGen) bin(op string, l, r *c05rlExpr) *c05rlExpr {
+	return &c05rlExpr{op: "bin", txt: op, kids: []*c05rlExpr{l, r}}
+}
+
+func (g *c05rlGen) logicOp() string { return pick(g.r, []string{"&&", "||"}) }
+
+// right: an operand whose evaluation changes the location; its own value has either truthiness
+func (g *c05rlGen) right(loc *c05rlExpr, d int) *c05rlExpr {
+	eff := g.effect(loc, false)
+	switch g.r.Intn(14) {
+	case 0, 1, 2, 3:
+		return eff
+	case 4, 5:
+		return &c05rlExpr{op: "not", kids: []*c05rlExpr{eff}}
+	case 6:
+		return g.bin(">", eff, c05rlLit("5", c05rlN(5)))
+	case 7:
+		return g.bin(pick(g.r, []string{"==", "!=", "<", ">="}), eff, c05rlLit("1", c05rlN(1)))
+	case 8:
+		return &c05rlExpr{op: "not", kids: []*c05rlExpr{{op: "not", kids: []*c05rlExpr{eff}}}}
+	case 9:
+		return g.bin(g.logicOp(), eff, g.leaf())
+	case 10:
+		return g.bin(g.logicOp(), g.leaf(), eff)
+	case 11:
+		pat := float64(g.r.Intn(2))
+		return &c05rlExpr{op: "matchlit", txt: c05Fmt(pat), lit: c05rlN(pat), kids: []*c05rlExpr{eff, g.scalar(), g.scalar()}}
+	case 12:
+		if d > 0 {
+			return g.bin(g.logicOp(), g.expr(d-1), eff)
+		}
+		return eff
+	default:
+		return g.bin(pick(g.r, []string{"+", "-", "*"}), eff, g.scalar())
+	}
+}
+
+// dynIndex: a[E] where evaluating E changes a (its elements, or the whole array)
+func (g *c05rlGen) dynIndex() *c05rlExpr {
+	a := &c05rlExpr{op: "var", txt: "a"}
+	num := func(n float64) *c05rlExpr { return c05rlLit(c05Fmt(n), c05rlN(n)) }
+	length := func(x *c05rlExpr) *c05rlExpr { return &c05rlExpr{op: "meth", txt: "length", kids: []*c05rlExpr{x}} }
+	fresh := &c05rlExpr{op: "asg", kids: []*c05rlExpr{a, {op: "arr", kids: []*c05rlExpr{g.scalar(), g.scalar()}}}}
+	var ix *c05rlExpr
+	switch g.r.Intn(5) {
+	case 0:
+		ix = g.bin("-", length(&c05rlExpr{op: "meth", txt: "push", kids: []*c05rlExpr{a, g.scalar()}}), num(1))
+	case 1:
+		ix = g.bin("-", length(&c05rlExpr{op: "par", kids: []*c05rlExpr{fresh}}), num(float64(1+g.r.Intn(2))))
+	case 2:
+		ix = g.bin("*", &c05rlExpr{op: "meth", txt: "pop", kids: []*c05rlExpr{a}}, num(0))
+	case 3:
+		ix = g.bin("*", &c05rlExpr{op: "meth", txt: "popfirst", kids: []*c05rlExpr{a}}, num(0))
+	default:
+		f := &c05rlFn{name: fmt.Sprintf("f%d", len(g.p.fns)), body: fresh, ret: num(float64(g.r.Intn(2)))}
+		g.p.fns = append(g.p.fns, f)
+		ix = &c05rlExpr{op: "call", txt: f.name}
+	}
+	return &c05rlExpr{op: "idxdyn", kids: []*c05rlExpr{a, ix}}
+}
+
+func (g *c05rlGen) leaf() *c05rlExpr {
+	if chance(g.r, 0.06) {
+		return g.dynIndex()
+	}
+	if chance(g.r, 0.7) {
+		return g.loc()
+	}
+	return g.scalar()
+}
+
+// left: mostly an aliased form of the location, sometimes a temporary
+func (g *c05rlGen) left(loc *c05rlExpr, d int) *c05rlExpr {
+	switch k := g.r.Intn(20); {
+	case k < 11:
+		return loc
+	case k < 13:
+		return &c05rlExpr{op: "par", kids: []*c05rlExpr{loc}}
+	case k < 15:
+		return &c05rlExpr{op: "asg", kids: []*c05rlExpr{loc, g.value()}}
+	case k == 15:
+		return &c05rlExpr{op: "matchw", kids: []*c05rlExpr{loc}}
+	case k == 16 && d > 0:
+		return g.expr(d - 1)
+	case k == 17:
+		e := g.bin(g.logicOp(), g.loc(), loc)
+		return e
+	case k == 18:
+		return pick(g.r, []*c05rlExpr{g.bin("+", loc, c05rlLit("0", c05rlN(0))), {op: "not", kids: []*c05rlExpr{loc}}, {op: "post", txt: "++", kids: []*c05rlExpr{loc}}})
+	}
+	return loc
+}
+
+func (g *c05rlGen) expr(d int) *c05rlExpr {
+	if d <= 0 {
+		return g.leaf()
+	}
+	loc := g.loc()
+	op := pick(g.r, c05rlOtherOps)
+	if chance(g.r, g.wLogic) {
+		op = g.logicOp()
+	}
+	var e *c05rlExpr
+	if chance(g.r, 0.04) {
+		return g.bin(op, g.dynIndex(), g.leaf())
+	}
+	if chance(g.r, 0.07) {
+		// the scrutinee's cell bound to a name: the name is one more alias
+		g.nBind++
+		name := fmt.Sprintf("v%d", g.nBind)
+		return &c05rlExpr{op: "matchbind", txt: name, kids: []*c05rlExpr{g.left(loc, 0), g.bin(op, &c05rlExpr{op: "var", txt: name}, g.right(loc, d-1))}}
+	}
+	l := g.left(loc, d)
+	var r *c05rlExpr
+	if chance(g.r, 0.8) {
+		r = g.right(loc, d-1)
+	} else {
+		r = g.expr(d - 1)
+	}
+	e = g.bin(op, l, r)
+	if (op == "&&" || op == "||") && l.op == "bin" && (l.txt == "&&" || l.txt == "||") && chance(g.r, 0.5) {
+		e.idx = 1
+	}
+	if chance(g.r, 0.12) {
+		e = &c05rlExpr{op: "not", kids: []*c05rlExpr{e}}
+	}
+	return e
+}
+
+func c05rlGenProg(r *rand.Rand, wLogic float64) *c05rlProg {
+	p := &c05rlProg{}
+	g := &c05rlGen{r: r, p: p, wLogic: wLogic}
+	v := func(n string) *c05rlExpr { return &c05rlExpr{op: "var", txt: n} }
+	p.init = []*c05rlExpr{
+		{op: "asg", kids: []*c05rlExpr{v("x"), g.value()}},
+		{op: "asg", kids: []*c05rlExpr{v("y"), g.value()}},
+		{op: "asg", kids: []*c05rlExpr{v("t"), g.bin("==", v("u"), c05rlLit("0", c05rlN(0)))}}, // u exists (unset) in BEGIN's frame
+		{op: "asg", kids: []*c05rlExpr{v("a"), {op: "arr", kids: []*c05rlExpr{g.scalar(), g.scalar()}}}},
+		{op: "asg", kids: []*c05rlExpr{v("o"), {op: "obj", kids: []*c05rlExpr{g.scalar(), g.scalar(), g.scalar()}, keys: []string{"n", "k", "s"}}}},
+	}
+	if chance(r, 0.2) {
+		// the object's members are document fields
+		var ps []string
+		o := p.init[4].kids[1]
+		for i, k := range o.kids {
+			j := k.txt
+			switch {
+			case k.op == "neg":
+				j = "-1"
+			case k.lit.k == 'S':
+				j = jsonString(k.lit.s)
+			}
+			ps = append(ps, jsonString(o.keys[i])+": "+j)
+		}
+		p.doc = "{" + strings.Join(ps, ", ") + "}"
+	}
+	for i, n := 0, 1+r.Intn(3); i < n; i++ {
+		kind := pick(r, []string{"show", "show", "show", "show", "if", "if", "while", "print"})
+		e := g.expr(1 + r.Intn(3))
+		for e.op != "bin" && e.op != "not" && e.op != "matchbind" {
+			e = g.expr(1 + r.Intn(3))
+		}
+		p.stmts = append(p.stmts, c05rlStmt{kind, e})
+	}
+	return p
+}
+
+func c05rlEmit(p *c05rlProg, sens, class, out string, gaveUp bool, emit func(Case)) {
+	nt := func(i Resp) bool { return i["class"] == "ok" || i["class"] == "runtime" }
+	prog := p.text()
+	kinds := ""
+	for _, st := range p.stmts {
+		kinds += st.kind + " "
+	}
+	var files []File
+	if p.doc != "" {
+		files = []File{{Name: "in.json", Data: []byte(p.doc)}}
+	}
+	cs := Case{Req: RunReq(prog, nil, files, false), Fields: []string{"class", "out"}, NonTrivial: nt,
+		Meta: metaProg(prog, "a-deviant-semantics-would-differ", sens, "statements", strings.TrimSpace(kinds), "input", p.doc, "row", sens)}
+	if !gaveUp {
+		wc, wo := class, out
+		cs.Oracle = func(i Resp) string {
+			if i["class"] != wc || string(i.Bytes("out")) != wo {
+				return fmt.Sprintf("&& / || go by the truthiness the left operand has when it is evaluated, other binary operators read their operand cells once both are evaluated: the generator's left-then-right interpretation gives class %s out %q; got class %s out %q", wc, short(wo), i["class"], short(string(i.Bytes("out"))))
+			}
+			return ""
+		}
+	}
+	emit(cs)
+}
+
+// c05rlGrid: the plain shapes, systematically: every kind of value (both truthinesses) in the location,
+// every kind of value (or a step) put there by the right operand, both operators, bare and negated,
+// as a value, an if condition and a while condition.
+func c05rlGrid(r *rand.Rand, tier string, logic bool, emit func(Case)) {
+	lit := c05rlLit
+	vals := []func() *c05rlExpr{
+		func() *c05rlExpr { return lit("0", c05rlN(0)) }, func() *c05rlExpr { return lit("1", c05rlN(1)) },
+		func() *c05rlExpr { return &c05rlExpr{op: "neg", kids: []*c05rlExpr{lit("1", c05rlN(1))}} },
+		func() *c05rlExpr { return lit("''", c05rlVal{k: 'S'}) }, func() *c05rlExpr { return lit("'a'", c05rlVal{k: 'S', s: "a"}) },
+		func() *c05rlExpr { return lit("'0'", c05rlVal{k: 'S', s: "0"}) },
+		func() *c05rlExpr { return lit("true", c05rlB(true)) }, func() *c05rlExpr { return lit("false", c05rlB(false)) },
+		func() *c05rlExpr { return lit("null", c05rlVal{k: 'Z'}) }, func() *c05rlExpr { return &c05rlExpr{op: "var", txt: "u"} },
+		func() *c05rlExpr { return &c05rlExpr{op: "arr"} }, func() *c05rlExpr { return &c05rlExpr{op: "arr", kids: []*c05rlExpr{lit("0", c05rlN(0))}} },
+		func() *c05rlExpr { return &c05rlExpr{op: "obj"} },
+		func() *c05rlExpr {
+			return &c05rlExpr{op: "obj", kids: []*c05rlExpr{lit("0", c05rlN(0))}, keys: []string{"k"}}
+		},
+	}
+	v := func(n string) *c05rlExpr { return &c05rlExpr{op: "var", txt: n} }
+	locs := []func() *c05rlExpr{
+		func() *c05rlExpr { return v("x") },
+		func() *c05rlExpr { return &c05rlExpr{op: "mem", txt: "n", kids: []*c05rlExpr{v("o")}} },
+		func() *c05rlExpr { return &c05rlExpr{op: "idx", kids: []*c05rlExpr{v("a")}, idx: 0} },
+		func() *c05rlExpr { return &c05rlExpr{op: "mem", txt: "s", idx: 1, kids: []*c05rlExpr{v("o")}} },
+	}
+	ops := []string{"&&", "||"}
+	if !logic {
+		ops = []string{"+", "-", "*", "==", "!=", "<", "<=", ">", ">="}
+	}
+	for i, n := 0, tierN(tier, 500, 15000); i < n; i++ {
+		p := &c05rlProg{}
+		li := r.Intn(len(locs))
+		v1 := pick(r, vals)
+		one := func() *c05rlExpr { return lit("1", c05rlN(1)) }
+		x0, a0, on, os := one(), one(), one(), one()
+		switch li {
+		case 0:
+			x0 = v1()
+		case 1:
+			on = v1()
+		case 2:
+			a0 = v1()
+		default:
+			os = v1()
+		}
+		p.init = []*c05rlExpr{
+			{op: "asg", kids: []*c05rlExpr{v("t"), {op: "bin", txt: "==", kids: []*c05rlExpr{v("u"), lit("0", c05rlN(0))}}}},
+			{op: "asg", kids: []*c05rlExpr{v("x"), x0}},
+			{op: "asg", kids: []*c05rlExpr{v("y"), lit("0", c05rlN(0))}},
+			{op: "asg", kids: []*c05rlExpr{v("a"), {op: "arr", kids: []*c05rlExpr{a0, one()}}}},
+			{op: "asg", kids: []*c05rlExpr{v("o"), {op: "obj", kids: []*c05rlExpr{on, lit("0", c05rlN(0)), os}, keys: []string{"n", "k", "s"}}}},
+		}
+		var eff *c05rlExpr
+		switch k := r.Intn(8); {
+		case k < 3:
+			eff = &c05rlExpr{op: "asg", kids: []*c05rlExpr{locs[li](), pick(r, vals)()}}
+		case k == 3:
+			eff = &c05rlExpr{op: "pre", txt: pick(r, []string{"--", "++"}), kids: []*c05rlExpr{locs[li]()}}
+		case k == 4:
+			eff = &c05rlExpr{op: "post", txt: pick(r, []string{"--", "++"}), kids: []*c05rlExpr{locs[li]()}}
+		case k == 5:
+			eff = &c05rlExpr{op: "opasg", txt: pick(r, []string{"-", "+"}), kids: []*c05rlExpr{locs[li](), one()}}
+		default:
+			f := &c05rlFn{name: "f0", body: &c05rlExpr{op: "asg", kids: []*c05rlExpr{locs[li](), pick(r, vals)()}}, ret: pick(r, vals[:9])()}
+			p.fns = append(p.fns, f)
+			eff = &c05rlExpr{op: "call", txt: "f0"}
+		}
+		switch r.Intn(4) {
+		case 0:
+			eff = &c05rlExpr{op: "not", kids: []*c05rlExpr{eff}}
+		case 1:
+			if eff.op != "asg" { // the value of an assignment is the location itself: comparing it says nothing new
+				eff = &c05rlExpr{op: "bin", txt: pick(r, []string{"==", ">", "<"}), kids: []*c05rlExpr{eff, pick(r, vals[:3])()}}
+			}
+		}
+		e := &c05rlExpr{op: "bin", txt: pick(r, ops), kids: []*c05rlExpr{locs[li](), eff}}
+		if chance(r, 0.2) {
+			e = &c05rlExpr{op: "not", kids: []*c05rlExpr{e}}
+		}
+		p.stmts = []c05rlStmt{{pick(r, []string{"show", "show", "if", "while", "print"}), e}}
+		out, class, gaveUp := p.run(0)
+		sens := "grid"
+		if !gaveUp {
+			o1, c1, _ := p.run(1)
+			o2, c2, _ := p.run(2)
+			if o1 != out || c1 != class || o2 != out || c2 != class {
+				sens = "grid-sensitive"
+			}
+		}
+		c05rlEmit(p, sens, class, out, gaveUp, emit)
+	}
+}
+
+func c05rlFamily(wLogic float64, deviant int) func(r *rand.Rand, tier string, emit func(Case)) {
+	return func(r *rand.Rand, tier string, emit func(Case)) {
+		c05rlGrid(r, tier, deviant == 1, emit)
+		n := tierN(tier, 1500, 60000)
+		for kept := 0; kept < n; {
+			p := c05rlGenProg(r, wLogic)
+			out, class, gaveUp := p.run(0)
+			sens := "none"
+			if gaveUp {
+				sens = "no-oracle"
+			} else {
+				o1, c1, g1 := p.run(1)
+				o2, c2, g2 := p.run(2)
+				d1 := !g1 && (o1 != out || c1 != class)
+				d2 := !g2 && (o2 != out || c2 != class)
+				switch {
+				case d1 && d2:
+					sens = "both"
+				case d1:
+					sens = "logic-rereads-left"
+				case d2:
+					sens = "binop-captures-left-early"
+				}
+			}
+			want := sens != "none" && sens != "no-oracle"
+			if sens == "binop-captures-left-early" && deviant == 1 || sens == "logic-rereads-left" && deviant == 2 {
+				want = chance(r, 0.5)
+			}
+			if !want && !chance(r, 0.06) {
+				continue
+			}
+			kept++
+			c05rlEmit(p, sens, class, out, gaveUp, emit)
+		}
+	}
+}
+
+func init() {
+	register(Family{
+		Name: "logic-selfmod", Prop: "C05",
+		Rule: "&& / || (85 % of the operator nodes; the rest comparison / arithmetic) whose right operand changes the very location that is the left operand: locations are plain variables (also an unset one), array elements, object members (dot and bracket form, also a missing member; in a fifth of the programs the object is the record $ of an input document, the members document fields); the left operand is the location itself, parenthesised, the result of an assignment to it, a match arm yielding it, a name bound to it by `match (loc) { v => v op ... }` (all aliases of the cell), or a temporary (loc + 0, !loc, loc++, a nested operator); the right operand applies -- ++ (prefix and postfix), = with literals of every kind and both truthinesses (0 1 2 -1, '' 'a' '0', true false, null, [] [0] {} {k: 0}), = another variable (also the unset one), -= += *=, a function doing one of these to the global, a.pop() / popfirst() / push(), replacing the whole container, bare or under !, !!, a comparison, an arithmetic operator, a further && / ||, or a match on its value; nested and chained (with and without parentheses on the left-associative level), under !, as assigned value, print argument, if and while condition; 1-3 statements per program, the state of every location printed after each; oracle (implementation only): the generator interprets the program itself (cells for variables / members, left operand first, right operand only when needed, result = boolean of the truthiness each operand had when it was evaluated) and demands exactly that class and output; the generator keeps mainly programs on which a semantics that reads the left cell again after the right operand ran would print something else; every program is also compared with the model",
+		Gen:  c05rlFamily(0.85, 1),
+	})
+	register(Family{
+		Name: "binop-selfmod", Prop: "C05",
+		Rule: "comparison and arithmetic operators (+ - * / % == != < <= > >=; 85 % of the operator nodes, the rest && / ||) whose right operand changes the location that is the left operand (same locations, alias forms, effects and contexts as logic-selfmod): both operands are cells, the left one is read only after the right operand has been evaluated, so `x + (x = 5)` is 10, `x < ++x` is false, `o.n * (o.n = 3)` is 9, while a temporary left operand (x + 0, x++, a missing member) keeps its value; also ~ / !~ (the left operand's string form is taken after the right operand ran) and the index operator a[E] with E pushing to, popping from or replacing a (the container is looked at once E has been evaluated); oracle (implementation only): the generator's own interpreter of that cell semantics gives the expected class and output (runtime errors -- zero divisor, comparing a container -- stop the program with the output so far); the generator keeps mainly programs on which capturing the left VALUE before the right operand runs would print something else; every program is also compared with the model",
+		Gen:  c05rlFamily(0.15, 2),
 	})
 }
